@@ -37,7 +37,7 @@ def blen(eng, st, v):
     if isinstance(v, StrV) and v.text is not None:
         return z3.BitVecVal(len(v.text.encode()), 64)
     if isinstance(v, Opaque):
-        return z3.BitVec(v.uid + '#len', 64)
+        return z3.BitVec(v.uid.lstrip('*') + '#len', 64)
     if isinstance(v, SeqV):
         return z3.BitVecVal(len(v.items), 64)
     raise MirError(f'length of {vrepr(v)}')
@@ -63,7 +63,7 @@ def codec_models():
             n = None
             ty = getattr(v, 'ty', '') or ''
             n = array_len(ty)
-            ln = z3.BitVecVal(n, 64) if n else z3.BitVec(M._ident(v) + '#len', 64)
+            ln = z3.BitVecVal(n, 64) if n else z3.BitVec(M._ident(v).lstrip('*') + '#len', 64)
             return [(st, wrap(v, ln))]
         return None
 
@@ -72,7 +72,7 @@ def codec_models():
         if isinstance(v, StrV) and isinstance(v.sym, Bytes):
             return [(st, Ref(st.temp(wrap(v.sym.src, v.sym.length)), ()))]
         if isinstance(v, (Opaque, StrV)):
-            ln = z3.BitVec(M._ident(v) + '#len', 64)
+            ln = z3.BitVec(M._ident(v).lstrip('*') + '#len', 64)
             return [(st, Ref(st.temp(wrap(v, ln, 'utf8')), ()))]
         return None
 
@@ -120,7 +120,7 @@ def codec_models():
 
     def url_to_string(eng, st, call):
         v = M.deref_all(eng, st, call.args[0])
-        return [(st, wrap(v, z3.BitVec(M._ident(v) + '#len', 64), 'utf8'))]
+        return [(st, wrap(v, z3.BitVec(M._ident(v).lstrip('*') + '#len', 64), 'utf8'))]
 
     def into_bytes(eng, st, call):
         v = M.deref_all(eng, st, call.args[0])
